@@ -58,11 +58,13 @@ def h_sound(ctx, cfg):
             ctx.count('prod:' + ft)
     f = p.objs['f']
     try:
-        R = sigtools.signature(f)
+        with sym.concrete():
+            R = sigtools.signature(f)
     except Exception as e:
         ctx.require('discovery-does-not-raise', False, lambda: dict(exc=repr(e), features=p.label()))
         return
-    B = S.signature(f)
+    with sym.concrete():
+        B = S.signature(f)
     info = lambda: dict(discovered=str(R), plain=str(B), features=p.label())
     if params_key(R) == params_key(B):
         ctx.count('reported-plain')
